@@ -56,6 +56,7 @@ def mc_cfg_text(m):
              "  MaxLen = %d" % m.get("MaxLen", 3),
              "  MaxLenB = %d" % m.get("MaxLenB", m.get("MaxLen", 3)),
              "  MaxExt = %d" % m.get("MaxExt", 1),
+             "  MaxCap = %d" % m.get("MaxCap", 1000000000),
              "  OneHandle = %s" % ("TRUE" if m.get("OneHandle", False) else "FALSE"),
              "  MaxOut = %d" % m.get("MaxOut", 0),
              "  MaxRepl = %d" % m.get("MaxRepl", 0),
